@@ -150,6 +150,42 @@ theorem finish_ok_get (cfg : Cfg) (d : Dir) (pre : List Op) (C : Bytes) (L : Byt
     get (run d (pre ++ writeFile cfg.fixed bfN L ++ writeFile cfg.fixed sfN C)) sfN = some C := by
   rw [run_append]; exact run_writeFile_self _ _ _ _
 
+theorem loadJS_noq (c : Bytes) (js : JS) (hl : loadJS c = some js) : q ∉ js.pub := by
+  unfold loadJS at hl
+  cases hp : parseState c with
+  | none => simp [hp] at hl
+  | some r =>
+    simp only [hp] at hl
+    obtain ⟨_, w⟩ := parse_sound _ _ hp
+    unfold jsOfRec at hl
+    cases hn : jsonNat r.iat with
+    | none => simp [hn] at hl
+    | some n =>
+      simp only [hn, Option.some.injEq] at hl
+      subst hl
+      exact w.pub
+
+theorem bf_ne_sftmp : bfN ≠ tmpName sfN := by decide
+
+/-- a successful `finish` leaves behind exactly what it presents: the state file recovers to the
+    presented identity and the bridge-line file is the one for it -/
+theorem finish_ok_inv (cfg : Cfg) (d : Dir) (pre : List Op) (js : JS) (a : Option Bytes) (i : Ident)
+    (hok : (finish cfg pre js a).out = .ok i) (hp : q ∉ js.pub) :
+    recover (run d (finish cfg pre js a).ops) = .valid i ∧
+    get (run d (finish cfg pre js a).ops) bfN = some (bridgeText cfg i) := by
+  cases hch : iatChoice js a with
+  | none => rw [finish_err1 cfg pre js a hch] at hok; cases hok
+  | some v =>
+    cases hid : identOfJS { js with iat := v } with
+    | none => rw [finish_err2 cfg pre js a v hch hid] at hok; cases hok
+    | some i' =>
+      rw [finish_ok cfg pre js a v i' hch hid] at hok ⊢
+      simp only [Outcome.ok.injEq] at hok
+      subst hok
+      refine ⟨recover_of_get _ _ i' hid hp (finish_ok_get cfg d pre _ _), ?_⟩
+      rw [run_append, run_writeFile_other _ _ sfN bfN _ bf_ne_sf bf_ne_sftmp, run_append]
+      exact run_writeFile_self _ _ _ _
+
 /-! ## a start from a directory holding a valid identity, no identity arguments -/
 
 /-- arguments that name no identity (at most an `iat-mode`) -/
